@@ -106,6 +106,12 @@ Example C14_nonvacuous :
     [PDone; POk 100001 false; PLogOk 100001; POk 100001 true; PFail; PLogOk 100002; PFail].
 Proof. vm_compute. reflexivity. Qed.
 
+(* a push opening never writes under a message identifier (the identifier a push payload names is chosen by
+   whoever sends the payload): the keys stored by identifier are exactly those the log path stored *)
+Theorem C14_push_never_stores_by_identifier :
+  forall Nr s e cid c, snd (push_step Nr s e cid) (KCid c) = s (KCid c).
+Proof. exact push_keeps_cid_keys. Qed.
+
 Print Assumptions C14_window_plain.
 Print Assumptions C14_window_low.
 Print Assumptions C14_window_width.
@@ -119,3 +125,4 @@ Print Assumptions C14_already_received_truthful.
 Print Assumptions C14_unknown_ref_rejected.
 
 Print Assumptions C14_flag_follows_the_cid_lookup.
+Print Assumptions C14_push_never_stores_by_identifier.
